@@ -1,9 +1,10 @@
 SPECIFICATION SpecAlg
 CONSTANTS
     Catalogue <- McCatalogue
+    SelIds = {1, 2, 3, 4, 5, 6, 7}
     MaxSegs = 3
     Dev = {}
     FieldBytes <- McFieldBytes
-    NormOf <- McNormOf
+    NormTable <- McNormTable
 INVARIANTS Associative DropsCommute Identity StatsIdentity MapBijective CursorAgrees
 CHECK_DEADLOCK FALSE
